@@ -116,9 +116,15 @@ impl Pre {
 fn execute(cfg: &Cfg, paths: &[String], pre: &Pre, source: &mut Source) -> Run {
     let r = execute_once(cfg, paths, pre, source, 1500);
     if let RunEnd::Deadlock(_) = r.end {
+        if crate::panicmon::CONFIRMED_DEADLOCKS.load(std::sync::atomic::Ordering::SeqCst) > 0 {
+            return r;
+        }
         let mut src = Source::Script { script: r.decisions.clone(), widths: vec![] };
         let mut r2 = execute_once(cfg, paths, pre, &mut src, 20_000);
         r2.rerun_after_timeout = true;
+        if let RunEnd::Deadlock(_) = r2.end {
+            crate::panicmon::CONFIRMED_DEADLOCKS.fetch_add(1, std::sync::atomic::Ordering::SeqCst);
+        }
         return r2;
     }
     r
@@ -169,6 +175,8 @@ fn execute_once(cfg: &Cfg, paths: &[String], pre: &Pre, source: &mut Source, stu
                 }
             }
         }
+    } else {
+        pool.abandon();
     }
     let results = results.lock().unwrap().clone();
     Run { results, trace: rr.trace, decisions: rr.decisions, widths: rr.widths, end: rr.end, not_dirs, rerun_after_timeout: false }
@@ -179,6 +187,10 @@ fn trace_text(trace: &[(usize, &'static str)]) -> String {
 }
 
 pub fn run_tuple(a: &Args, tag: &'static str, idx: u64, schedules: u64, sweep_cap: u64, acc: &mut Acc) {
+    if crate::panicmon::CONFIRMED_DEADLOCKS.load(std::sync::atomic::Ordering::SeqCst) >= 3 {
+        acc.count("tuples_skipped_after_confirmed_deadlocks", 1);
+        return;
+    }
     let mut rng = Rng::derive(a.seed, tag, idx);
     let cfg = mem_cfgs(idx);
     let nthreads = *rng.pick(&[2usize, 2, 3, 4]);
